@@ -4,11 +4,19 @@ Second sentence (decided by the TLA+ machinery):
 S1  TLC checks spec/RuleSwitch.tla (loader swapping the list under the write lock vs. requests obtaining it under the
     read lock and evaluating outside) for OldOrNew over all interleavings; the in-place-update mutant (Swap = FALSE)
     must violate it (vacuity guard).
+    First use: the same model with Fresh = TRUE (the resource has no statistic object and no rules; first requests and
+    the loader create it on demand: look up, write section, look again, create) is checked for Enforced / StatAgrees /
+    OneObject (after quiescence P sequential probes are admitted iff admitted-so-far + 1 <= threshold in force, the
+    registered object shows every admitted request) for rules that read the loader's object (flow) and the request's
+    object (isolation); the mutant Recheck = FALSE ("two creators both install") must violate Enforced and StatAgrees.
 S3  harness/cmd/c15, built with -race, runs live traffic on every rule module while loaders / clearers / getters of
     every module and the statistics getters churn; flow and isolation use the version-identifying rule lists of
     RuleSwitch.tla.
 S4  spec/RuleSwitch_Trace.tla (TLC) judges every recorded request: decided entirely by one version current between its
     invocation and return; requests on a resource whose rules never change are never disturbed; no panic.
+    First-use rounds (second phase of the driver: fresh resource per round, first requests and rule loads released from a
+    spin barrier, then sequential probes under a frozen clock): every probe decision and every statistics getter value
+    is the one the spec computes from the requests made (Enforced / StatAgrees).
 First sentence (data races, panics, deadlock): NOT decidable by TLC - the Go race detector judges the executions the
 conformance driver produces (level: exploration, DESIGN section 8).  A race report, an escaped panic or a watchdog
 timeout (reproduced) in those runs is reported as a violation.
@@ -16,7 +24,12 @@ timeout (reproduced) in those runs is reported as a violation.
 import json, os, re, subprocess, shutil
 from vlib import main, write_ndjson, read_ndjson, MachineryError, goenv
 
-CFG = "SPECIFICATION Spec\nCONSTANTS\n K = %d\n NR = %d\n Swap = %s\nINVARIANT OldOrNew\nCHECK_DEADLOCK FALSE\n"
+CFG = ('SPECIFICATION Spec\nCONSTANTS\n K = %d\n NR = %d\n Swap = %s\n Fresh = FALSE\n Recheck = TRUE\n Bind = "load"\n T = 1\n P = 0\n'
+       'INVARIANT OldOrNew\nCHECK_DEADLOCK FALSE\n')
+# first use: the resource has no statistic object and no rules; (K, NR, Recheck, Bind, T, P, invariants)
+CFG_FU = ('SPECIFICATION Spec\nCONSTANTS\n K = %d\n NR = %d\n Swap = TRUE\n Fresh = TRUE\n Recheck = %s\n Bind = "%s"\n T = %d\n P = %d\n'
+          'INVARIANTS %s\nCHECK_DEADLOCK FALSE\n')
+FU_INV = 'Enforced StatAgrees OneObject'
 
 
 def race_signatures(stderr):
@@ -38,12 +51,12 @@ def race_signatures(stderr):
     return sigs
 
 
-def run_driver(c, drv, seed, nver, ntraffic, tag):
+def run_driver(c, drv, seed, nver, ntraffic, tag, nfirst=0):
     tp = os.path.join(c.scratch, 'trace-%s.ndjson' % tag)
     env = goenv()
     env['GORACE'] = 'exitcode=66 halt_on_error=0'
     try:
-        p = subprocess.run([drv, tp, str(seed), str(nver), str(ntraffic)], env=env, stdout=subprocess.PIPE, stderr=subprocess.PIPE, text=True, timeout=240)
+        p = subprocess.run([drv, tp, str(seed), str(nver), str(ntraffic), str(nfirst)], env=env, stdout=subprocess.PIPE, stderr=subprocess.PIPE, text=True, timeout=240)
     except subprocess.TimeoutExpired:
         return tp, 4, 'WATCHDOG: timeout', []
     return tp, p.returncode, p.stderr, race_signatures(p.stderr)
@@ -58,14 +71,32 @@ def validate(c, tp):
 
 
 def binding_selftest(c, tp):
-    lines = [json.loads(l) for l in open(tp)]
+    full = [json.loads(l) for l in open(tp)]
+    # a reduced (still well-formed) copy keeps the five validations short: all loads, the first requests, the first rounds
+    lines, nreq, nfu = [], 0, 0
+    for e in full:
+        if e['op'] == 'req':
+            nreq += 1
+            if nreq > 2500:
+                continue
+        elif e['op'] == 'fu':
+            nfu += 1
+        if e['op'] in ('fu', 'probe', 'reload', 'release', 'stat') and nfu > 60:
+            continue
+        lines.append(e)
     reqs = [i for i, e in enumerate(lines) if e['op'] == 'req']
     nver = lines[0]['nver']
+    probes = [i for i, e in enumerate(lines) if e['op'] == 'probe' and not e['pass']]
+    stats = [i for i, e in enumerate(lines) if e['op'] == 'stat' and e['conc'] > 0]
     bad = 0
-    for variant in range(3):
+    for variant in range(5):
         out = [dict(e) for e in lines]
-        i = reqs[(len(reqs) // 3) * variant + 1]
-        if variant == 0:
+        i = reqs[(len(reqs) // 3) * (variant % 3) + 1]
+        if variant == 3:
+            out[probes[len(probes) // 2]]['pass'] = True    # a request beyond the threshold in force is admitted
+        elif variant == 4:
+            out[stats[len(stats) // 2]]['conc'] -= 1        # the statistics getters lose a request in flight
+        elif variant == 0:
             out[i]['pass'] = True                       # a request that saw a mixture passes
         elif variant == 1:
             out[i]['marker'] = nver + 5                 # decided by a version that never existed
@@ -76,10 +107,11 @@ def binding_selftest(c, tp):
         write_ndjson(cp, out)
         mism, consumed, r = c.validate('RuleSwitch_Trace', cp, len(out), timeout=900)
         bad += 1 if mism else 0
-    if bad != 3:
-        raise MachineryError('binding self-test failed: 3 corrupted traces, %d rejected' % bad)
-    c.cov['binding_selftest'] = '3 corrupted traces (passing request, unknown version, disturbed constant resource), all rejected'
-    c.log('binding self-test: 3 corrupted traces, all rejected')
+    if bad != 5:
+        raise MachineryError('binding self-test failed: 5 corrupted traces, %d rejected' % bad)
+    c.cov['binding_selftest'] = ('5 corrupted traces (passing request, unknown version, disturbed constant resource, first use: probe admitted beyond '
+                                 'the threshold, first use: getter loses a request in flight), all rejected')
+    c.log('binding self-test: 5 corrupted traces, all rejected')
 
 
 def check(c, tier, replay):
@@ -109,19 +141,32 @@ def check(c, tier, replay):
     if r.violated != 'OldOrNew':
         raise MachineryError('vacuity guard: the in-place-update mutant of RuleSwitch must violate OldOrNew, got %s' % (r.violated or r.error))
     c.cov['spec_mutant'] = 'Swap=FALSE (in-place update of the list cells) violates OldOrNew'
+    # first use: statistic object created on demand by racing first requests / the loader
+    fu = [(2, 2, 'load', 2, 4), (2, 2, 'req', 2, 4)] + ([(1, 3, 'load', 2, 4), (1, 3, 'req', 2, 4), (2, 3, 'load', 2, 3)] if thorough else [])
+    for k, nr, bind, t, p in fu:
+        r = c.model_check('RuleSwitch', cfg_text=CFG_FU % (k, nr, 'TRUE', bind, t, p, FU_INV), workers=8, timeout=1800)
+        if not r.completed:
+            c.inconclusive.append('RuleSwitch.tla (first use) violates %s (K=%d NR=%d Bind=%s)' % (r.violated, k, nr, bind))
+    for bind, inv in (('load', 'Enforced'), ('req', 'Enforced'), ('load', 'StatAgrees')):
+        r = c.tlc('RuleSwitch', cfg_text=CFG_FU % (2, 2, 'FALSE', bind, 2, 4, inv), workers=4, timeout=600, count=False)
+        if r.violated != inv:
+            raise MachineryError('vacuity guard: the mutant "two creators both install" (Recheck=FALSE, Bind=%s) must violate %s, got %s'
+                                 % (bind, inv, r.violated or r.error))
+    c.cov['spec_mutant_first_use'] = 'Recheck=FALSE (two creators both install a statistic object) violates Enforced (Bind=load, Bind=req) and StatAgrees'
     # S3 ---------------------------------------------------------------------------------------
     drv = c.build('c15', race=True)
     runs = 3 if not thorough else 20
     nver, ntraffic = (1500, 8) if not thorough else (6000, 12)
-    total_req = racing = lines = 0
+    nfirst = 250 if not thorough else 600
+    total_req = racing = lines = rounds = probes = 0
     seen_sigs = {}
     first = True
     for i in range(runs):
         seed = c.seed * 100 + i
-        tp, rc, err, sigs = run_driver(c, drv, seed, nver, ntraffic, str(i))
+        tp, rc, err, sigs = run_driver(c, drv, seed, nver, ntraffic, str(i), nfirst)
         if rc == 4 or 'WATCHDOG' in err:
             # an API call that never returns: reproduce once before calling it a deadlock
-            tp2, rc2, err2, _ = run_driver(c, drv, seed + 7, nver, ntraffic, str(i) + 'b')
+            tp2, rc2, err2, _ = run_driver(c, drv, seed + 7, nver, ntraffic, str(i) + 'b', nfirst)
             if rc2 == 4:
                 rp = c.save_replay('watchdog-%d.txt' % seed, [err[-3000:], err2[-3000:]])
                 c.violation('public API calls did not return within the watchdog limit in two runs (deadlock)', rp)
@@ -136,15 +181,17 @@ def check(c, tier, replay):
         end = json.loads(open(tp).read().splitlines()[-1])
         total_req += end['requests']
         racing += end['racing']
+        rounds += end.get('rounds', 0)
+        probes += sum(1 for x in open(tp) if '"op":"probe"' in x)
         # S4 -----------------------------------------------------------------------------------
         mism, n = validate(c, tp)
         lines += n
         c.cov['traces_validated_against_impl'] += 1
-        c.log('run %d (seed %d): %d requests (%d racing a rule switch), %d loads, races reported: %d, trace %d events, rejected: %d'
-              % (i, seed, end['requests'], end['racing'], end['loads'], len(sigs), n, len(mism)))
+        c.log('run %d (seed %d): %d requests (%d racing a rule switch), %d loads, %d first-use rounds, races reported: %d, trace %d events, rejected: %d'
+              % (i, seed, end['requests'], end['racing'], end['loads'], end.get('rounds', 0), len(sigs), n, len(mism)))
         for tr, line, exp in mism[:3]:
             rp = c.save_replay('switch-%d.ndjson' % seed, open(tp).read().splitlines())
-            c.violation('real execution violates C15 (rule switch not atomic / panic): %s' % exp[:500], rp)
+            c.violation('real execution violates C15 (rule switch not atomic / rules or statistics wrong after racing first use / panic): %s' % exp[:500], rp)
         if first and not mism:
             binding_selftest(c, tp)
             first = False
@@ -155,15 +202,21 @@ def check(c, tier, replay):
             c.known(key, c.kf[key]['description'])
         else:
             c.violation('data race reported by the Go race detector between: ' + s, rp)
-    c.cov['evaluations'] = total_req
-    c.cov['distinct_nontrivial'] = racing
+    c.cov['evaluations'] = total_req + probes
+    c.cov['distinct_nontrivial'] = racing + rounds
+    c.cov['first_use_rounds'] = rounds
+    c.cov['first_use_probes'] = probes
     c.cov['race_signatures'] = sorted(seen_sigs)
     c.cov['rule'] = ('one evaluation = one Entry call of the free-running traffic (built with -race, %d runs x %d rule versions per module, %d traffic '
                      'goroutines + 2 churn goroutines per module + readers); non-trivial = requests on a churned resource whose [invocation, return] '
-                     'overlaps a rule load of its module (counted by the driver from the atomic sequence numbers)' % (runs, nver, ntraffic))
+                     'overlaps a rule load of its module (counted by the driver from the atomic sequence numbers), plus one per first-use round '
+                     '(%d per run: 2-5 first requests of a never-seen resource and 0-2 rule loads for it released from a spin barrier, then sequential '
+                     'probes and statistics getters judged exactly)' % (runs, nver, ntraffic, nfirst))
     c.assumptions += ['data-race freedom is judged by the Go race detector on the executions this driver produces (sampled schedules, not exhaustive)',
                       'version-identifying rule lists for flow, isolation and hotspot; circuit breaker, system and outlier are exercised for races / panics / deadlock only',
-                      'sequence numbers are drawn from one atomic counter before a call and after its return']
+                      'sequence numbers are drawn from one atomic counter before a call and after its return',
+                      'first-use rounds run under a frozen virtual clock (all requests of a round in one statistic window); what the racing '
+                      'requests themselves decide is not judged beyond "rejected only by a threshold that was being loaded"']
 
 
 main('C15', check, level='exploration')
